@@ -181,6 +181,15 @@ func (r *RNG) Picture() []Call {
 			if verb == "A" || verb == "a" {
 				c.F[0], c.F[1], c.F[2] = float32(2+r.Intn(40)), float32(2+r.Intn(40)), float32(r.Intn(8))/8
 			}
+			if verb == "a" && r.Chance(25) {
+				// the "whole ellipse as one large arc" idiom: the end point a tiny chord away from the start
+				ch := []float32{1.0 / 64, 1.0 / 256, 1.0 / 512, 1.0 / 1024}[r.Intn(4)]
+				c.F[3], c.F[4] = []float32{ch, -ch, 0}[r.Intn(3)], []float32{ch, 0, -ch}[r.Intn(3)]
+				if c.F[3] == 0 && c.F[4] == 0 {
+					c.F[3] = ch
+				}
+				c.La = true
+			}
 			cs = append(cs, c)
 		}
 		cs = append(cs, Call{Name: "Z"})
@@ -235,7 +244,7 @@ func monitorPixels(line string, cs []Call, r *RNG) (fails []Failure) {
 		}
 	}
 	// (b) power-of-two scaling
-	k := []int{1, 2, 3, -1, -2, 5}[r.Intn(6)]
+	k := []int{1, 2, 3, -1, -2, 5, -4, -6, 7, -9}[r.Intn(10)]
 	scaled, _, p := renderPixels(scaleProgram(cs, k), alpha, own, own, op, false)
 	if p == "" && pow2Expressible(cs, h) && !sameImage(base, scaled) {
 		fails = append(fails, Failure{"C16.pow2-scaling", line, fmt.Sprintf("%dx%d alpha=%v scale 2^%d: pixels differ at %v", w, h, alpha, k, firstPixelDiff(base, scaled))})
@@ -331,7 +340,7 @@ type pipelineResult struct {
 	dec, dis, enc, ren, vb string
 }
 
-func runPipeline(src []byte, renderable bool, pal *[64]color.RGBA, calls []Call) (res pipelineResult) {
+func runPipeline(src []byte, renderable bool, pal *[64]color.RGBA, calls []Call, shared []decode.DecodeOption) (res pipelineResult) {
 	defer func() {
 		if p := recover(); p != nil {
 			res.dec += fmt.Sprint("PANIC:", p)
@@ -340,6 +349,12 @@ func runPipeline(src []byte, renderable bool, pal *[64]color.RGBA, calls []Call)
 	rec := &Recorder{}
 	err := decode.Decode(rec, src, decode.WithPalette(*pal))
 	res.dec = ShowCalls(rec.Calls) + ErrStr(err)
+	if shared != nil {
+		// the same options, passed as a slice that several goroutines share (a theme): same result expected
+		rec2 := &Recorder{}
+		err2 := decode.Decode(rec2, src, shared...)
+		res.dec += " | " + ShowCalls(rec2.Calls) + ErrStr(err2)
+	}
 	txt, err := decode.Disassemble(src)
 	res.dis = string(txt) + ErrStr(err)
 	vb, err := decode.DecodeViewBox(src)
@@ -402,20 +417,29 @@ func suiteC18(s *Shard, n int) {
 		}
 		palOrig := pal
 		defVB, defPal, magic := ivg.DefaultViewBox, ivg.DefaultPalette, append([]byte(nil), ivg.MagicBytes...)
-		serial := make([]pipelineResult, 0, 8)
-		for g := 0; g < 8; g++ {
-			serial = append(serial, runPipeline(srcs[g%len(srcs)], renderable[g%len(srcs)], &pal, prog))
+		// a shared options slice built by append: it has spare capacity behind its length
+		shared := make([]decode.DecodeOption, 0, 4)
+		shared = append(shared, decode.WithPalette(pal))
+		if r.Bool() {
+			shared = append(shared, decode.WithColorAt(r.Intn(64), r.Premul()))
 		}
+		spare := shared[:cap(shared)]
+		// the concurrent batch comes FIRST (no serial warm-up of anything initialised lazily), the serial
+		// reference afterwards
 		conc := make([]pipelineResult, 8)
 		var wg sync.WaitGroup
 		for g := 0; g < 8; g++ {
 			wg.Add(1)
 			go func(g int) {
 				defer wg.Done()
-				conc[g] = runPipeline(srcs[g%len(srcs)], renderable[g%len(srcs)], &pal, prog)
+				conc[g] = runPipeline(srcs[g%len(srcs)], renderable[g%len(srcs)], &pal, prog, shared)
 			}(g)
 		}
 		wg.Wait()
+		serial := make([]pipelineResult, 0, 8)
+		for g := 0; g < 8; g++ {
+			serial = append(serial, runPipeline(srcs[g%len(srcs)], renderable[g%len(srcs)], &pal, prog, shared))
+		}
 		line := fmt.Sprintf("conc 8 | %s", HexBytes(srcs[0]))
 		s.Count("concurrent-batches")
 		s.Sig(fmt.Sprint(len(srcs[0])%16, len(prog)%8))
@@ -433,6 +457,12 @@ func suiteC18(s *Shard, n int) {
 		if pal != palOrig {
 			s.Fail("C18.palette-unmodified", line, "the caller-supplied palette was modified")
 		}
+		for k := len(shared); k < len(spare); k++ {
+			if spare[k] != nil {
+				s.Fail("C18.options-slice-unmodified", line, fmt.Sprintf("Decode wrote element %d of the caller's options slice (len %d, cap %d)", k, len(shared), cap(shared)))
+				break
+			}
+		}
 		if ivg.DefaultViewBox != defVB || ivg.DefaultPalette != defPal || !bytes.Equal(ivg.MagicBytes, magic) {
 			s.Fail("C18.package-defaults-unmodified", line, "a package-level default was modified")
 		}
@@ -444,4 +474,66 @@ func init() {
 	Budgets["C16"] = [2]int{600, 30000}
 	Suites["C18"] = suiteC18
 	Budgets["C18"] = [2]int{400, 20000}
+}
+
+// ColdStart is the whole life of one process: build a few inputs (no library call that could initialise
+// anything lazily is made on them first), then release 8 goroutines at once, each running every
+// pipeline on the SAME inputs.  Anything the library initialises on first use is initialised under
+// contention here; the race detector (harness-race) reports it.  Run many times, each in a new process.
+func ColdStart(seed uint64, repo string) string {
+	r := NewRNG(seed)
+	_ = repo
+	var srcs [][]byte
+	for k := 0; k < 4; k++ {
+		srcs = append(srcs, StaticPicture(r))
+	}
+	pal := r.PremulPalette()
+	prog := r.Program(ProgOpts{Arcs: true, Reset: 2, MaxPaths: 3})
+	shared := make([]decode.DecodeOption, 0, 4)
+	shared = append(shared, decode.WithPalette(pal))
+	start := make(chan struct{})
+	res := make([]pipelineResult, 8)
+	var wg sync.WaitGroup
+	for g := 0; g < 8; g++ {
+		wg.Add(1)
+		go func(g int) {
+			defer wg.Done()
+			<-start
+			for _, src := range srcs {
+				res[g] = runPipeline(src, true, &pal, prog, shared)
+			}
+		}(g)
+	}
+	close(start)
+	wg.Wait()
+	for g := 1; g < 8; g++ {
+		if res[g] != res[0] {
+			return fmt.Sprintf("DIFFERENT goroutine %d", g)
+		}
+	}
+	return "same"
+}
+
+// StaticPicture assembles an encoded graphic WITHOUT calling the library (bytes written by hand from the
+// format): palette-indexed, register and blended colours, a few paths with lines.
+func StaticPicture(r *RNG) []byte {
+	b := []byte{0x89, 'I', 'V', 'G', 0x00}
+	for p := 1 + r.Intn(3); p > 0; p-- {
+		switch r.Intn(3) {
+		case 0: // Set CREG[CSEL-adj] to a 1 byte colour: palette index or register
+			b = append(b, byte(0x80+r.Intn(7)), byte(0x80+r.Intn(0x80)))
+		case 1: // 3 byte indirect: blend of two 1-byte colours
+			b = append(b, byte(0xa0+r.Intn(7)), byte(r.Intn(256)), byte(0x80+r.Intn(0x80)), byte(0x80+r.Intn(0x80)))
+		default: // 1 byte opaque table colour
+			b = append(b, byte(0x80+r.Intn(7)), byte(r.Intn(125)))
+		}
+		b = append(b, 0xc0, byte(0x40+2*r.Intn(0x3f)), byte(0x40+2*r.Intn(0x3f))) // start path at small integers
+		n := 1 + r.Intn(4)
+		b = append(b, byte(0x00+n-1)) // L, n reps
+		for k := 0; k < 2*n; k++ {
+			b = append(b, byte(0x40+2*r.Intn(0x3f)))
+		}
+		b = append(b, 0xe1)
+	}
+	return b
 }
